@@ -902,8 +902,11 @@ def observe_copy(seed):
     prod_before = canon(vx.product.pars) if hasattr(vx.product, 'pars') else None
     sims = []
     for i in range(2):
-        s = small_sim(seed, diseases=dis, networks=net, interventions=vx)
-        s.run(); sims.append(s)
+        try:
+            s = small_sim(seed, diseases=dis, networks=net, interventions=vx)
+            s.run(); sims.append(s)
+        except Exception as e:
+            fails.append(f'sim {i + 1} built from the user-held module objects failed ({type(e).__name__}: {str(e)[:100]}); the first sim left the user\'s objects in a used state')
     after = {k: module_state(m) for k, m in user.items()}
     for k in user:
         checks += 1
@@ -912,6 +915,8 @@ def observe_copy(seed):
             fails.append(f'user-held {k} object changed after being passed to two sims (fields {diff})')
     if prod_before != (canon(vx.product.pars) if hasattr(vx.product, 'pars') else None):
         fails.append('the product of the user-held intervention changed')
+    if len(sims) < 2:
+        return dict(fails=fails, checks=checks, seed=seed)
     for k, lst in (('diseases', 'diseases'), ('networks', 'networks'), ('interventions', 'interventions')):
         held = [list(s[lst].values())[0] for s in sims]
         checks += 3
@@ -1132,7 +1137,7 @@ def oracle_unknown(route, mk, name):
     sink = 'update_pars' if (type(m) in seen.get('types', []) or bogus in seen.get('keys', ())) else ('ss.Time(pars=...)' if any(bogus in (tp or {}) for tp in seen['time_pars'] if isinstance(tp, dict)) else 'other')
     if route in ('spec-dict', 'spec-list', 'spec-in-pars'): sink = 'update_pars' if uses_update_pars(cls) else 'other'
     return dict(signature=dict(oracle='unknown-key-accepted', route=route, sink=sink),
-                what=f"unknown parameter name '{bogus}' was accepted without an error via route {route} ({mk}:{name})", data=data)
+                what=f"unknown parameter name '{bogus}' was accepted without an error via route {route}" + (f" ({mk}:{name})" if route.startswith(('ctor', 'spec', 'known')) else ''), data=data)
 
 
 BAD_FOR_DIST = ['str', 'nil', 'series', 'array', 'cls']
@@ -1274,7 +1279,10 @@ def search(ctx):
         m0 = cls() if probe else construct(cls)
         for par in m0.pars.keys():
             tk = okind_of(m0.pars[par])
-            bad = BAD_FOR_DIST if tk.startswith(('dist', 'bern')) else BAD_FOR_TIMEPAR if tk.startswith(('timepar', 'beta')) else []
+            bad = list(BAD_FOR_DIST) if tk.startswith(('dist', 'bern')) else list(BAD_FOR_TIMEPAR) if tk.startswith(('timepar', 'beta')) else []
+            if tk.startswith('bern'): bad += ['dist', 'dictTypeDist']            # a Bernoulli parameter stays Bernoulli
+            if tk.endswith('_dur'): bad += ['timeparN']                           # a duration stays a duration ...
+            if tk.endswith('_nondur'): bad += ['timeparD']                        # ... and a rate a rate
             for nk in bad:
                 f = oracle_bad_value(cls, par, nk, 5, probe)
                 ctx.count('oracle_bad')
@@ -1301,7 +1309,7 @@ def search(ctx):
         obs = observe_copy(seed)
         ctx.count('oracle_copy')
         for msg in obs['fails']:
-            ctx.fail(dict(oracle='input-isolation', what=msg.split(' ')[0] + ' ' + msg.split(' ')[1]), msg, dict(kind='copy', seed=seed))
+            ctx.fail(dict(oracle='input-isolation'), msg, dict(kind='copy', seed=seed))
 
 
 def resolve_cls(name, probe):
